@@ -33,6 +33,8 @@ type Op struct {
 	B64Ok bool     `json:"b64ok,omitempty"`
 	MatOk bool     `json:"matok,omitempty"`
 	Pcols int      `json:"pcols,omitempty"`
+	BRows int      `json:"brows,omitempty"` // basis dimensions (0: the right ones, pcols x 1)
+	BCols int      `json:"bcols,omitempty"`
 	W     string   `json:"w,omitempty"` // start stop pause unpause unpause-label unpause-bad garbage
 	Ljh   bool     `json:"ljh,omitempty"`
 	Off   bool     `json:"off,omitempty"`
@@ -70,12 +72,29 @@ type outcome struct {
 	Events   []sched.Event `json:"events"`
 	Returned int           `json:"returned"`
 	Hung     bool          `json:"hung"`
-	Overlap  bool          `json:"overlap"` // the core loop left a handler that was still blocked
+	Overlap  bool          `json:"overlap"`           // the core loop left a handler that was still blocked
+	Foreign  []string      `json:"foreign,omitempty"` // loop-owned state touched outside the core loop during a request
 	Running  bool          `json:"final_running"`
 	Progress bool          `json:"progress"`
 }
 
 func zl(xs []int) string { return lib.ZListInt(xs) }
+
+// projDims: the projectors are 1 x cols; the basis is br x bc (cols x 1 unless the case says otherwise)
+func projDims(o Op) (cols, br, bc int) {
+	cols = o.Pcols
+	if cols < 1 {
+		cols = 1
+	}
+	br, bc = o.BRows, o.BCols
+	if br < 1 {
+		br = cols
+	}
+	if bc < 1 {
+		bc = 1
+	}
+	return
+}
 
 func coqOp(o Op) string {
 	io := lib.B(o.Io)
@@ -89,7 +108,8 @@ func coqOp(o Op) string {
 	case "lengths":
 		return fmt.Sprintf("OReq (RqPulseLengths %s %s) %s", lib.Z(int64(o.Ns)), lib.Z(int64(o.Np)), io)
 	case "projectors":
-		return fmt.Sprintf("OReq (RqProjectors %s %s %s %s) %s", lib.Z(int64(o.PIdx)), lib.B(o.B64Ok), lib.B(o.MatOk), lib.Z(int64(o.Pcols)), io)
+		cols, br, bc := projDims(o)
+		return fmt.Sprintf("OReq (RqProjectors %s %s %s %d %d %d) %s", lib.Z(int64(o.PIdx)), lib.B(o.B64Ok), lib.B(o.MatOk), cols, br, bc, io)
 	case "wc":
 		w := ""
 		switch o.W {
@@ -192,12 +212,9 @@ func (e *env) do(o Op) (call string, class string) {
 		return "req", okerr(sc.ConfigurePulseLengths(dastard.SizeObject{Nsamp: o.Ns, Npre: o.Np}, &okb))
 	case "projectors":
 		pb := &dastard.ProjectorsBasisObject{ChannelIndex: o.PIdx, ModelDescription: "verif"}
-		cols := o.Pcols
-		if cols < 1 {
-			cols = 1
-		}
+		cols, br, bc := projDims(o)
 		pm := mat.NewDense(1, cols, nil)
-		bm := mat.NewDense(cols, 1, nil)
+		bm := mat.NewDense(br, bc, nil)
 		pbytes, _ := pm.MarshalBinary()
 		bbytes, _ := bm.MarshalBinary()
 		if !o.MatOk {
@@ -399,6 +416,7 @@ func runOnce(c Case, watchdog time.Duration) (outcome, error) {
 				slowBase = s.Count("core:after-request")
 				time.Sleep(10 * time.Millisecond) // the consumer notices within 2 ms
 			}
+			s.SetJudge(call == "req")
 			s.Go(call, func() string { _, cls := e.do(o); return cls })
 			for i := 0; i < 50 && s.InFlightFrom("call:"+call); i++ {
 				time.Sleep(100 * time.Microsecond)
@@ -446,6 +464,8 @@ func runOnce(c Case, watchdog time.Duration) (outcome, error) {
 		}
 	}
 	out.Events = s.Events()
+	out.Foreign = s.ForeignAccesses()
+	s.SetJudge(false)
 	for _, ev := range out.Events {
 		if ev.Kind == "ret" {
 			out.Returned++
@@ -488,8 +508,8 @@ func render(c Case, out outcome, crashed bool) string {
 			es = append(es, "ret "+call+" "+cls)
 		}
 	}
-	return fmt.Sprintf("mk %s %d %d %d %s %s %d%%nat %s %s %s %s", coqKind[c.Source], nchanOf[c.Source], nsamp0, npre0,
-		lib.List(ops), lib.List(es), out.Returned, lib.B(crashed), lib.B(out.Overlap), lib.B(out.Running), lib.B(out.Progress))
+	return fmt.Sprintf("mk %s %d %d %d %s %s %d%%nat %s %s %s %s %s", coqKind[c.Source], nchanOf[c.Source], nsamp0, npre0,
+		lib.List(ops), lib.List(es), out.Returned, lib.B(crashed), lib.B(out.Overlap), lib.B(len(out.Foreign) > 0), lib.B(out.Running), lib.B(out.Progress))
 }
 
 // tagsOf: input features, also the stable keys of findings (request kind x argument class x state)
@@ -550,6 +570,9 @@ func tagsOf(c Case) []string {
 		}
 		if o.Op == "projectors" && (!o.B64Ok || !o.MatOk) {
 			t["malformed-encoding"] = true
+		}
+		if o.Op == "projectors" && (o.BRows > 0 || o.BCols > 0) {
+			t["basis-shape-mismatch"] = true
 		}
 	}
 	var out []string
